@@ -24,7 +24,8 @@ def gen_history(rng, n):
     for _ in range(n):
         r = rng.random()
         if r < 0.30:
-            evs.append(rng.choice(["x11:1", "x11:0", "agent", "fwd:1", "fwdz:1", "fwd:0", "fwdz:0", "cancel", "cancel"]))
+            evs.append(rng.choice(["x11:1", "x11:0", "x11:c", "x11:e", "pty:1", "pty:1", "pty:0", "pty:c", "agent", "fwd:1", "fwdz:1",
+                                   "fwd:0", "fwdz:0", "cancel", "cancel"]))
         elif r < 0.45:
             evs.append("g:%s:%d" % (hx(rng.choice(GLOBAL_KINDS)), rng.random() < 0.7))
         elif r < 0.80:
@@ -55,7 +56,7 @@ def run_history(ctx, evs):
             parts = ev.split(":")
             if parts[0] == "fwdz":
                 parts = ["fwd"] + parts[1:]
-            if parts[0] in ("x11", "agent", "fwd", "cancel"):
+            if parts[0] in ("x11", "pty", "agent", "fwd", "cancel"):
                 res = pair.action(ev)
                 replies.append("-")
                 # the oracle's record of what is enabled comes from what the scripted SERVER answered (granted or
@@ -68,7 +69,9 @@ def run_history(ctx, evs):
                     fwd = True
                 elif parts[0] == "cancel":
                     fwd = False
-                want = "ok" if not (parts[0] in ("x11", "fwd") and parts[1] == "0") else "denied"
+                # a request counts as granted only if the server's answer ON THE WIRE was SUCCESS ("1"); FAILURE ("0"),
+                # a CLOSE ("c") or EOF+CLOSE ("e") of the channel instead of an answer are all "not granted"
+                want = "ok" if not (parts[0] in ("x11", "pty", "fwd") and parts[1] != "1") else "denied"
                 if res != want:
                     ctx.disagree("harness: client action outcome", case, want, res)
                 continue
@@ -116,7 +119,8 @@ def run(ctx):
     from pv import lib_authsrv as L
 
     L.quiet_logging()
-    ctx.rule = ("histories of 1-10 events: client actions {request_x11 granted/denied, request_forward_agent, "
+    ctx.rule = ("histories of 1-10 events: client actions {request_x11 / get_pty answered by hand with SUCCESS, FAILURE, CLOSE or "
+                "EOF+CLOSE of the channel (several requests on one session channel), request_forward_agent, "
                 "request_port_forward granted/denied with an explicit port or port 0 (server-allocated; cancelled under the returned port), cancel_port_forward} mixed with server-initiated GLOBAL_REQUEST (5 "
                 "kinds, with/without want-reply), CHANNEL_OPEN (7 kinds) and CHANNEL_REQUEST (12 types) - each kind occurs "
                 "before and after enable / cancel; plus fixed histories per kind. non-trivial = the history contains a "
@@ -134,6 +138,13 @@ def run(ctx):
          "o:%s:5" % hx(b"forwarded-tcpip")],
         ["fwdz:1", "o:%s:1" % hx(b"forwarded-tcpip"), "cancel", "o:%s:2" % hx(b"forwarded-tcpip"), "fwdz:0",
          "o:%s:3" % hx(b"forwarded-tcpip"), "fwd:1", "fwdz:1", "cancel", "o:%s:4" % hx(b"forwarded-tcpip")],
+        # on ONE session channel: an earlier granted request, then an x11 request the server answers by closing the
+        # channel (neither SUCCESS nor FAILURE), by EOF+CLOSE, by FAILURE - then the server opens an x11 channel
+        ["pty:1", "x11:c", "o:%s:1" % hx(b"x11"), "pty:1", "x11:e", "o:%s:2" % hx(b"x11"), "pty:1", "x11:0",
+         "o:%s:3" % hx(b"x11"), "pty:1", "x11:1", "o:%s:4" % hx(b"x11")],
+        ["pty:1", "pty:1", "x11:c", "o:%s:1" % hx(b"x11")],
+        ["pty:c", "x11:c", "o:%s:1" % hx(b"x11"), "agent", "pty:1", "x11:e", "o:%s:2" % hx(b"x11"),
+         "o:%s:3" % hx(b"auth-agent@openssh.com")],
         # several forwards cancelled one by one (one shared handler: the first cancel already disables forwarding)
         ["fwd:1", "fwdz:1", "o:%s:1" % hx(b"forwarded-tcpip"), "cancel", "o:%s:2" % hx(b"forwarded-tcpip"), "cancel",
          "o:%s:3" % hx(b"forwarded-tcpip"), "fwdz:1", "cancel", "cancel", "o:%s:4" % hx(b"forwarded-tcpip")],
@@ -144,13 +155,17 @@ def run(ctx):
     ]
     n = 200 if ctx.thorough else 45
     hists += [gen_history(rng, rng.randrange(1, 11)) for _ in range(n)]
-    model = ctx.driver("C18", ["hist " + " ".join(h) for h in hists])
+    def model_tok(ev):
+        k, _, v = ev.partition(":")
+        return "%s:0" % k if k in ("x11", "pty") and v in ("c", "e") else ev
+
+    model = ctx.driver("C18", ["hist " + " ".join(model_tok(e) for e in h) for h in hists])
     for i, h in enumerate(hists):
         got = run_history(ctx, h)
         acted = False
         nt = False
         for ev in h:
-            if ev.split(":")[0] in ("x11", "agent", "fwd", "fwdz", "cancel"):
+            if ev.split(":")[0] in ("x11", "pty", "agent", "fwd", "fwdz", "cancel"):
                 acted = True
             elif acted:
                 nt = True
@@ -174,7 +189,8 @@ META = {
               "to exit-status / xon-xoff, never to exec, shell, subsystem, pty-req, env, x11-req, auth-agent-req, "
               "window-change or unknown requests. Tied to transport.py/channel.py by differential runs of random and fixed "
               "histories against a real client Transport with a scripted server side, on every check."),
-    "note": ("Trusted: Lean kernel + 3 standard axioms; the scripted-server harness. Handlers are booleans in the model "
+    "note": ("Trusted: Lean kernel + 3 standard axioms; the scripted-server harness. request_x11 / get_pty are answered by hand "
+             "(SUCCESS, FAILURE, CLOSE, EOF+CLOSE); 'granted' in model and oracle means CHANNEL_SUCCESS was put on the wire. Handlers are booleans in the model "
              "(installed / not installed); x11 and agent handlers are never uninstalled by paramiko (modelled as such: a "
              "granted x11 request on one channel enables x11 opens for the whole transport). Payload parsing of the "
              "server's messages (get_text of kind/key: UnicodeDecodeError on invalid UTF-8 kills the transport) is not "
